@@ -353,6 +353,22 @@ class DSession:
                                      or any(x is obj for x in d.subscribers))})
         return out
 
+    def create_composite_from_configs(self, feats):
+        """CompositeFeatureObserver.from_feature_observer_configs(dispatcher, configs): the composite is made of
+        exactly the configured observers, in that order - whatever else is subscribed already.
+        feats: [(class name, feature types or None), ...]"""
+        from job_shop_lib.dispatching.feature_observers import CompositeFeatureObserver
+        from .esession import _feature_configs
+        d = self.dispatcher
+        out, obj = _outcome(lambda: CompositeFeatureObserver.from_feature_observer_configs(d, _feature_configs(feats)))
+        if out == "ok":
+            self.extra.append(obj)
+        self._ev({"a": "CreateObs", "t": "CompositeFeatureObserver", "fts": [], "out": out,
+                  "subscribed": bool(out != "ok" or any(x is obj for x in d.subscribers)),
+                  "configured": [t for (t, _f) in feats],
+                  "component_types": [type(c).__name__ for c in obj.feature_observers] if out == "ok" else []})
+        return out
+
     def subscribe_builtin(self, idx):
         """dispatcher.subscribe(obj) for a built-in observer that was constructed with subscribe=False"""
         obj = self.extra[idx]
